@@ -755,7 +755,10 @@ def file_wrapper(ctx):
             raise AnalysisError(f'{n} not found')
     src = {n: unparse(fs[n].node, 3000) for n in need}
     checks = [
-        ('save_obj_to_json', 'json.dump(obj.to_dict(), f' in src['save_obj_to_json']),
+        ('save_obj_to_json',
+         'json.dump(obj.to_dict(), f' in src['save_obj_to_json'] or
+         ('json.dumps(obj.to_dict()' in src['save_obj_to_json'] and
+          'f.write(text)' in src['save_obj_to_json'])),
         ('load_obj_from_json', 'json.load(f)' in src['load_obj_from_json'] and
          'cls.from_dict(data)' in src['load_obj_from_json']),
         ('load_optiland_file', 'load_obj_from_json(Optic, filepath)' in
@@ -772,6 +775,38 @@ def file_wrapper(ctx):
                                  f'{n} does not round-trip through '
                                  f'to_dict/from_dict and json',
                                  construct=n))
+    # "a lens remains serialisable after any sequence of edits": values that
+    # the lens accepts and traces (numpy scalars from np.arange / comparisons)
+    # must be written, and a failed save must not destroy the previous file:
+    # the text is produced before the file is opened for writing
+    sv = fs['save_obj_to_json']
+    opens = [n_ for n_ in ast.walk(sv.node) if isinstance(n_, ast.With) and
+             any('open(' in unparse(i_.context_expr) and "'w'" in
+                 unparse(i_.context_expr) for i_ in n_.items)]
+    enc_inside = any(isinstance(c_, ast.Call) and unparse(c_.func) in (
+        'json.dump', 'json.dumps') for w_ in opens for c_ in ast.walk(w_))
+    has_default = any(isinstance(c_, ast.Call) and unparse(c_.func) in (
+        'json.dump', 'json.dumps') and any(k_.arg == 'default'
+                                           for k_ in c_.keywords)
+        for c_ in ast.walk(sv.node))
+    if opens and not enc_inside:
+        res.ok('save: the JSON text is produced before the file is opened')
+    else:
+        res.fail(ctx.finding(
+            'FILE-WRAPPER', sv, sv.node,
+            'save_obj_to_json opens the target with "w" and encodes inside '
+            'the with block: when encoding fails (TypeError) the previous '
+            'good file is left truncated and unloadable',
+            construct='save truncates on failure'))
+    if has_default:
+        res.ok('save: numpy scalars / arrays are converted (default= hook)')
+    else:
+        res.fail(ctx.finding(
+            'FILE-WRAPPER', sv, sv.node,
+            'json.dump is called without a default= hook: a lens built from '
+            'numpy integers / booleans (fields from np.arange, '
+            'is_stop=(i == k), np.int64 radius) traces fine but cannot be '
+            'saved (TypeError)', construct='save rejects numpy values'))
     # registries: every concrete subclass is registered via __init_subclass__
     for base in ('BaseGeometry', 'BaseMaterial', 'BaseCoating', 'BaseBSDF',
                  'BaseAperture', 'BaseSolve', 'Surface'):
@@ -993,5 +1028,79 @@ META['declined'] = [
     for _d in META['declined']]
 
 
-RULES = [load_pure, c01_init_stores, derived_sync_rule, c12_arg_names, fresh_load, s1_keys, s2_roundtrip, s3_plain, s4_arity, s5_none, s6_optic,
+def reload_identity(ctx):
+    """two facts about object identity that a dictionary cannot carry by
+    itself: (a) a medium is one object shared by the surface behind which it
+    starts and the surface in front of which it ends (and by both sides of a
+    mirror) - code that compares media with `is` (set_fresnel_coatings)
+    depends on it, so SurfaceGroup.from_dict must re-create the sharing;
+    (b) a Plane may carry a conic constant (Optic.set_conic / set_radius(inf)
+    store k on it) which Plane.to_dict / from_dict must write and restore."""
+    P = ctx.P
+    res = Result('RELOAD-IDENTITY', 'a reloaded lens shares its media objects '
+                 'like a built one; a conic kept on a flat surface is saved')
+    uses_identity = []
+    # == / != on media is identity as long as no material class defines
+    # __eq__
+    has_eq = any('__eq__' in P.classes[c_].methods
+                 for c_ in P.subclasses('BaseMaterial') + ['BaseMaterial'])
+    ident_ops = (ast.Is, ast.IsNot) if has_eq else \
+        (ast.Is, ast.IsNot, ast.Eq, ast.NotEq)
+    for f in P.all_funcs():
+        for c_ in ast.walk(f.node):
+            if isinstance(c_, ast.Compare) and isinstance(
+                    c_.ops[0], ident_ops) and \
+                    'material_pre' in unparse(c_) and \
+                    'material_post' in unparse(c_):
+                uses_identity.append(f.qual)
+    fd = P.func('SurfaceGroup.from_dict')
+    res.saw(fd)
+    src = unparse(fd.node, 100000).replace(' ', '')
+    relink = any(isinstance(st, ast.Assign) and
+                 unparse(st.targets[0]).endswith('.material_pre') and
+                 unparse(st.value).endswith('.material_post')
+                 for st in ast.walk(fd.node))
+    mirror = any(isinstance(st, ast.Assign) and
+                 unparse(st.targets[0]).endswith('.material_post') and
+                 unparse(st.value).endswith('.material_pre')
+                 for st in ast.walk(fd.node))
+    if not uses_identity or (relink and mirror):
+        res.ok(f'media re-linked on load (identity is compared in '
+               f'{sorted(set(uses_identity))})')
+    else:
+        res.fail(ctx.finding(
+            'RELOAD-IDENTITY', fd, fd.node,
+            f'{sorted(set(uses_identity))} compare media by identity, but '
+            f'SurfaceGroup.from_dict builds material_pre and material_post '
+            f'of every surface as separate objects: after a JSON round trip '
+            f'set_fresnel_coatings gives a mirror FresnelCoating(air, air) '
+            f'with reflectance 0 (axial intensity 0.0 instead of 0.9216)',
+            construct='media not shared after reload'))
+    td = P.func('Plane.to_dict')
+    pf = P.func('Plane.from_dict')
+    res.saw(td), res.saw(pf)
+    stores_k = any(isinstance(st, ast.Assign) and
+                   unparse(st.targets[0]) in ('surface.geometry.k',
+                                              'new_geometry.k')
+                   for q in ('Optic.set_conic', 'Optic.set_radius')
+                   for st in ast.walk(P.func(q).node))
+    writes = "'conic'" in unparse(td.node, 100000) and \
+        'self.k' in unparse(td.node, 100000)
+    reads = "data['conic']" in unparse(pf.node, 100000) or \
+        "data.get('conic'" in unparse(pf.node, 100000)
+    if not stores_k or (writes and reads):
+        res.ok('Plane: a conic constant kept on the flat surface is written '
+               'and restored')
+    else:
+        res.fail(ctx.finding(
+            'RELOAD-IDENTITY', td, td.node,
+            'Optic.set_conic / set_radius(inf) keep k on a Plane, but '
+            'Plane.to_dict / from_dict neither write nor restore it: after '
+            'set_radius(50) the original lens is a parabola and the reloaded '
+            'one a sphere (marginal direction cosine -0.066228 vs -0.067575)',
+            construct='Plane conic not serialised'))
+    return res
+
+
+RULES = [reload_identity, load_pure, c01_init_stores, derived_sync_rule, c12_arg_names, fresh_load, s1_keys, s2_roundtrip, s3_plain, s4_arity, s5_none, s6_optic,
          s7_kwargs, plain_store, file_wrapper]
